@@ -329,6 +329,11 @@ func (c15) Run(e *Env) {
 		}
 	}
 	for _, p := range partOrder {
+		if graceHit {
+			// Stop gave up joining after its grace (abandon by design): the flush then runs next
+			// to goroutines that are still delivering, and the order of deliveries is nobody's
+			break
+		}
 		for k, mn := range mns[p] {
 			if mn != int64(k+1) {
 				e.Violate("C15/match-number", "", "partition %s: MATCH_NUMBER sequence %v is not 1,2,3,..", p, mns[p])
